@@ -151,6 +151,8 @@ def gen_plan(rng, tier, i, seed):
             units = [dict(first), dict(first)] + [dict(first, type="extra") for u in units[2:]]
     smp = {"name": "s0", "genes": {g["name"]: units}, "phase_seed": rng.randint(0, 999),
            "paired": rng.random() < 0.4}
+    if rng.random() < 0.25:
+        smp["chr_prefix"] = True  # the alignment file names its contigs chr<name>
     if cut_sites:
         # where the tiling starts is the sequencer's choice: pick a start (phase seed) for which the copy that
         # carries both sites has a read ending inside the second site and the other copy has none
